@@ -219,9 +219,15 @@ fn run(args: &Args, rep: &mut Report) {
             auxj,
         ),
     );
+    if args.tier == vcore::rt::Tier::Thorough {
+        checks::fuzzrun::campaign(rep, args, "chunk", 300000, checks::oracle::fuzz_chunk);
+    }
 }
 
 fn replay(_sub: &str, case: &Value) -> Result<(), String> {
+    if _sub.starts_with("libfuzzer-") {
+        return checks::oracle::fuzz_chunk(&vcore::drive::case_bytes(case));
+    }
     let bytes = case_bytes(case);
     if let Some(cuts) = case.get("cuts").and_then(|c| c.as_array()) {
         let cuts: Vec<usize> = cuts.iter().filter_map(|c| c.as_u64()).map(|c| c as usize).collect();
